@@ -8,6 +8,7 @@ package main
 import (
 	"fmt"
 	"sort"
+	"strings"
 
 	"github.com/wader/fq/internal/verifharness/hlib"
 )
@@ -515,6 +516,14 @@ func genKase(r *hlib.Rand, pf profile) *kase {
 		}
 		v4ok, v6ok = true, true
 	}
+	// capture timestamps: the expected result never depends on them
+	if !pf.plainFile && r.Intn(2) == 0 {
+		k.times = timeModes[r.Intn(len(timeModes))]
+		if capFmts[k.fmtName].ng && r.Intn(2) == 0 {
+			k.times += "/" + []string{"ns", "ms", "b10", "s"}[r.Intn(4)]
+		}
+		k.notes = append(k.notes, "time"+strings.ReplaceAll(k.times, "/", ""))
+	}
 	nc := r.Range(1, pf.maxConns)
 	var tls [][]pkt
 	for ci := 0; ci < nc; ci++ {
@@ -585,6 +594,10 @@ func genLongQueue(r *hlib.Rand) *kase {
 	c.data[0] = generatedData(r.U64()%1000000, total)
 	c.data[1] = literalData(r.Bytes(r.Range(0, 40)))
 	k.conns = []conn{c}
+	if r.Intn(2) == 0 {
+		k.times = []string{"hours", "days", "back", "jumps", "minutes"}[r.Intn(5)]
+		k.notes = append(k.notes, "time"+k.times)
+	}
 	hasSyn := r.Intn(10) < 7
 	var tl []pkt
 	if hasSyn {
